@@ -14,7 +14,7 @@ The context rules are transcribed from the property statement / README "Summary 
 """
 from __future__ import annotations
 import time, inspect, functools, ast as pyast
-from hidv.oblig import task, Result, DISCHARGED, FAILED, UNDECIDED
+from hidv.oblig import task, Result, DISCHARGED, FAILED, UNDECIDED, BOUNDED_OK, BOUNDED_FAILED
 from hidv.pyvc import core as V
 
 MOD = 'contracts.py_grammar'
@@ -230,6 +230,85 @@ CONSTRUCT = {
 }
 
 
+def placement_matrix(max_depth=2):
+    """every construct placed in every context reachable by nesting wrappers up to max_depth inside each flavour of function: (program, accepted per README)"""
+    import itertools
+    # state: (may call you-functions, may call defeat-functions, try allowed, preempt allowed, ?? allowed, inside a loop)
+    start = {'you': (True, False, True, False, True, False), 'defeat': (False, True, False, True, False, False), 'plain': (False, False, False, False, False, False)}
+    head = {'you': 'empty @is_you() { %s }', 'defeat': 'empty !d() { %s } empty @is_you() {}', 'plain': 'empty f() { %s } empty @is_you() {}'}
+    prelude = 'int g() { return 1; } int @y() { return 1; } int !dd() { return 1; } empty @yy() {} empty !ddd() {} bool c = true;\n'
+    def wrap(st, w):
+        you, dft, try_, pre, spec, loop = st
+        if w == 'block': return '{ %s }', st
+        if w == 'if': return 'if (c) { %s }', st
+        if w == 'else': return 'if (c) { } else { %s }', st
+        if w == 'while': return 'while (c) { %s }', (you, dft, try_, pre, spec, True)
+        if w == 'for': return 'for (int i@ = 0; i@ < 3; i@ += 1) { %s }', (you, dft, try_, pre, spec, True)
+        if w == 'try-body': return ('try { %s } undo { }', (False, True, False, True, False, loop)) if try_ else None
+        if w == 'undo': return ('try { } undo { %s }', st) if try_ else None
+        if w == 'stop': return ('try { } stop { %s }', st) if try_ else None
+        if w == 'preempt': return ('preempt { %s }', st) if pre else None
+    wrappers = ('block', 'if', 'else', 'while', 'for', 'try-body', 'undo', 'stop', 'preempt')
+    constructs = {
+        'call_plain': ('g();', lambda st: True), 'call_you': ('@yy();', lambda st: st[0]), 'call_defeat': ('!ddd();', lambda st: st[1]),
+        'try': ('try { } undo { }', lambda st: st[2]), 'preempt': ('preempt { }', lambda st: st[3]), 'break': ('break;', lambda st: st[5]), 'continue': ('continue;', lambda st: st[5]),
+        'spec': ('int q = g() ?? 1;', lambda st: st[4]), 'spec_you_operand': ('int q = @y() ?? 1;', lambda st: False), 'spec_defeat_operand': ('int q = 1 ?? !dd();', lambda st: False),
+        'spec_nested_call_operand': ('int q = g() + @y() ?? 1;', lambda st: False), 'spec_in_call_arg': ('write(g() ?? 2);', lambda st: st[4]),
+        'you_call_in_expr': ('int q = 1 + @y();', lambda st: st[0]), 'defeat_call_in_expr': ('int q = 1 + !dd();', lambda st: st[1]),
+        'defeat_call_in_condition': ('if (!dd() > 0) { }', lambda st: st[1]), 'you_call_in_loop_condition': ('while (@y() > 5) { }', lambda st: st[0]),
+    }
+    out = []
+    for flavour in start:
+        for depth in range(0, max_depth + 1):
+            for chain in itertools.product(wrappers, repeat=depth):
+                st = start[flavour]; templ = '%s'; ok = True
+                for d_, w in enumerate(chain):
+                    r = wrap(st, w)
+                    if r is None: ok = False; break
+                    t, st = r
+                    templ = templ % t.replace('@', str(d_))
+                if not ok: continue
+                for cname, (text, allowed) in constructs.items():
+                    body = templ % text
+                    out.append((f'{flavour}/' + '/'.join(chain) + f'/{cname}', prelude + head[flavour] % body, bool(allowed(st))))
+    return out
+
+
+def accepts_program(src):
+    """parser + typechecker: a context violation is a ParserError; anything else the typechecker rejects is reported separately"""
+    from hidc.parser import parse
+    from hidc.lexer import SourceCode
+    from hidc.ast import Environment
+    from hidc.errors import ParserError, CompilerError
+    try:
+        tree = parse(SourceCode.from_string(src))
+    except ParserError as e:
+        return False, str(e)
+    try:
+        tree.evaluate(Environment.empty())
+    except CompilerError as e:
+        return None, f'{type(e).__name__}: {e}'
+    return True, ''
+
+
+def ob_placement(max_depth=2):
+    t0 = time.time(); bad = []; n = 0
+    for name, src, want in placement_matrix(max_depth):
+        n += 1
+        try:
+            got, why = accepts_program(src)
+        except Exception as e:
+            got, why = 'crash', repr(e)
+        if got is not want:
+            bad.append({'placement': name, 'accepted': got, 'documented': want, 'diagnostic': why[:120], 'program': src.split('\n', 1)[1][:200]})
+            if len(bad) > 8: break
+    det = {'formula': 'every construct in every context reachable by nesting <= %d wrappers inside each function flavour: accepted iff README "Summary of what is allowed" allows it' % max_depth,
+           'bound': f'nesting depth <= {max_depth}', 'count': n, 'functions': ['hidc.parser.grammar.ps_block', 'hidc.parser.grammar.ps_stmt', 'hidc.parser.grammar.ps_func_call', 'hidc.parser.grammar.ps_expr',
+                                                                              'hidc.parser.grammar.BlockContext']}
+    if bad: det.update(model=bad[:6], replay={'reproduced': True, 'how': 'real parser and typechecker on the placement program', 'observed': bad[0]})
+    return [Result(f'C06/placement-matrix/depth{max_depth}', BOUNDED_FAILED if bad else BOUNDED_OK, 'bounded:enum', time.time() - t0, (), det)]
+
+
 def accepts(src):
     from hidc.parser import parse
     from hidc.lexer import SourceCode
@@ -259,6 +338,16 @@ def replay_context(rule, bad):
     except Exception as ex:
         return {'reproduced': None, 'how': f'witness programs crashed: {ex!r}'}
     wrong = [k for k, v in obs.items() if v]
+    if not wrong:
+        # the full placement matrix (every construct in every context up to nesting depth 2)
+        try:
+            for name, src, want in placement_matrix(2):
+                got, why = accepts_program(src)
+                if got is not want:
+                    return {'reproduced': True, 'how': 'placement program through the real parser and typechecker',
+                            'observed': {'placement': name, 'accepted': got, 'documented': want, 'diagnostic': why[:120], 'program': src.split('\n', 1)[1][:200]}}
+        except Exception as ex:
+            return {'reproduced': True, 'how': 'placement program through the real parser and typechecker', 'observed': {'placement': name, 'crash': repr(ex)}}
     return {'reproduced': bool(wrong), 'how': 'depth-1 placement programs through the real hidc.parser.parse', 'observed': wrong or 'no placement program shows it'}
 
 
@@ -655,8 +744,22 @@ def ob_roundtrip_bounded():
             want = reference_tree(toks)
             if got != want:
                 wrong.append({'source': src, 'parsed': got, 'documented': want})
+    # chains of unary prefixes (up to two) on every operand of `a o b`, and on a lone operand
+    chains = [()] + [(u1,) for u1 in ('-', 'not', '+')] + [(u1, u2) for u1 in ('-', 'not', '+') for u2 in ('-', 'not', '+')]
+    for o in bin_ops + [None]:
+        for ca in chains:
+            for cb in (chains if o else [()]):
+                toks = list(ca) + ['a'] + ([o] + list(cb) + ['b'] if o else [])
+                src = ' '.join(toks); n += 1
+                try:
+                    got = tree_of(parse(SourceCode.from_string(src), ps_expr(BlockContext.FUNC)))
+                except Exception as ex:
+                    got = repr(ex)
+                want = reference_tree(toks)
+                if got != want:
+                    wrong.append({'source': src, 'parsed': got, 'documented': want})
     from hidv.oblig import BOUNDED_OK, BOUNDED_FAILED
-    det = {'bound': 'all binary operator pairs (x4 unary prefixes) and triples (x2): exhaustive at that size', 'formula': 'parse(tokens) == reference tree',
+    det = {'bound': 'all binary operator pairs (x4 unary prefixes) and triples (x2), unary chains up to two on both operands of every operator: exhaustive at that size', 'formula': 'parse(tokens) == reference tree',
            'count': n, 'functions': ['hidc.parser.parse', 'hidc.parser.grammar.ps_expr']}
     if wrong: det.update(model=wrong[:5], replay={'reproduced': True, 'how': 'real parser output', 'observed': wrong[0]})
     return [Result('C11/roundtrip/pairs-and-triples', BOUNDED_FAILED if wrong else BOUNDED_OK, 'bounded:enum', time.time() - t0, (), det)]
@@ -668,6 +771,7 @@ def tasks(tier):
         out.append(task(MOD, 'ob_context_threading', ('C06', 'C10') if rule in ('ps_block', 'ps_expr') else ('C06',), label=f'py/grammar/ctx/{rule}', rule=rule, cost=4))
     out.append(task(MOD, 'ob_guards', ('C06', 'C03'), label='py/grammar/guards', cost=8))
     out.append(task(MOD, 'ob_ctx_not_rebound', ('C06',), label='py/grammar/ctx-not-rebound'))
+    out.append(task(MOD, 'ob_placement', ('C06', 'C10'), label='py/grammar/placement', max_depth=2 if tier == 'quick' else 3, cost=5 if tier == 'quick' else 60))
     out.append(task(MOD, 'ob_ladder', ('C11',), label='py/grammar/ladder', cost=6))
     out.append(task(MOD, 'ob_roundtrip_bounded', ('C11',), label='py/grammar/roundtrip-bounded', cost=3))
     return out
